@@ -213,7 +213,7 @@ def real_cases(tier):
         if tier == 'thorough':
             out.append((name, 1e-2, 3, False if name != 'deco-tree' else True, 1, 'neighbour'))
     # the same solve with step tracing switched on for the last of two periods (the exogenous value moves between them)
-    for name in ('deco-dependent-first', 'deco-tree', 'alias-chain', 'lagged') + (('two-coupled', 'user-function') if tier == 'thorough' else ()):
+    for name in ('deco-dependent-first', 'deco-tree', 'lagged') + (('alias-chain', 'two-coupled', 'user-function') if tier == 'thorough' else ()):
         out.append((name, 1e-2, 2, True, 2, 'trace'))
     return out
 
